@@ -1090,6 +1090,12 @@ func (ce *cenv) pseudo(name string, x *ast.CallExpr) (Val, bool) {
 			v.L[j] = ex.heapGet(ce.st, rk, l.Sort)
 		}
 		return v, true
+	case "bounded": // bounded(ctx): the context carries a finite deadline
+		return boolVal(sel(ex.ctxBounded(ce.st), arg(0).L[1])), true
+	case "reqBounded": // reqBounded(req): the *http.Request was built with a context that has a deadline
+		ex.registerKey("X|http.reqctx", arrSort(sInt, sInt))
+		rc := sel(ex.heapGet(ce.st, "X|http.reqctx", arrSort(sInt, sInt)), arg(0).L[0])
+		return boolVal(sel(ex.ctxBounded(ce.st), rc)), true
 	case "dnsAns": // dnsAns(q, v): the slice v is one the resolver returned for query text q
 		return boolVal(ex.dnsAnswered(ce.st, arg(0).L[0], arg(1))), true
 	case "iptext": // iptext(s): the textual form (net.IP.String) of the address whose raw bytes are the string s
